@@ -1308,7 +1308,8 @@ fn pack(out: &mut Out, rng: &mut Rng, thorough: bool) {
 	use grin_core::core::hash::Hashed;
 	let mut ok = 0u64;
 	let mut refused = 0u64;
-	for (ct, ps) in [(ChainTypes::AutomatedTesting, 8usize), (ChainTypes::Mainnet, 42usize)].iter() {
+	let mut roundtrips = 0u64;
+	for (ct, ps) in [(ChainTypes::AutomatedTesting, 8usize), (ChainTypes::Mainnet, 42usize), (ChainTypes::UserTesting, 42usize)].iter() {
 		global::set_local_chain_type(*ct);
 		for w in 1u8..=63 {
 			for rep in 0..(if thorough { 30 } else { 4 }) {
@@ -1360,6 +1361,53 @@ fn pack(out: &mut Out, rng: &mut Rng, thorough: bool) {
 							out.raw(&format!("#ORACLE-FAIL C05 well-formed proof refused on read: w={} {:?}", w, nonces));
 						}
 					}
+				}
+				// the same through EVERY protocol version (write -> read -> write exact), and the reader on
+				// the header-level path (a ProofOfWork: total difficulty, scaling, nonce, proof)
+				for pv in [1u32, 2, 3, 1000].iter() {
+					let pv = ser::ProtocolVersion(*pv);
+					let b1 = match ser::ser_vec(&p, pv) {
+						Ok(b) => b,
+						Err(_) => continue,
+					};
+					if b1 != bytes {
+						out.raw(&format!("#ORACLE-FAIL C05 Proof::write depends on the protocol version {}: w={} {:?}", pv.0, w, nonces));
+					}
+					let b1c = b1.clone();
+					let r = catch(move || ser::deserialize::<Proof, _>(&mut &b1c[..], pv, ser::DeserializationMode::default()));
+					match r {
+						Err(_) => out.raw(&format!("#ORACLE-FAIL C05 Proof::read panics at protocol version {}: w={} {:?}", pv.0, w, nonces)),
+						Ok(Ok(q)) => {
+							let b2 = ser::ser_vec(&q, pv).unwrap_or_default();
+							if q.nonces != nonces || q.edge_bits != w || b2 != b1 {
+								out.raw(&format!("#ORACLE-FAIL C05 proof does not survive write -> read -> write at protocol version {}: w={} ps={} {:?} -> {:?} bytes {} -> {}", pv.0, w, ps, nonces, q.nonces, hex(&b1), hex(&b2)));
+							}
+						}
+						Ok(Err(_)) => {
+							if packed.len() >= 8 {
+								out.raw(&format!("#ORACLE-FAIL C05 well-formed proof refused on read at protocol version {}: w={} {:?}", pv.0, w, nonces));
+							}
+						}
+					}
+					if packed.len() >= 8 {
+						let mut pw = grin_core::pow::ProofOfWork::default();
+						pw.total_difficulty = grin_core::pow::Difficulty::from_num(rng.next());
+						pw.secondary_scaling = rng.next() as u32;
+						pw.nonce = rng.next();
+						pw.proof = p.clone();
+						if let Ok(pb) = ser::ser_vec(&pw, pv) {
+							let pbc = pb.clone();
+							match catch(move || ser::deserialize::<grin_core::pow::ProofOfWork, _>(&mut &pbc[..], pv, ser::DeserializationMode::default())) {
+								Ok(Ok(q)) => {
+									if q != pw || ser::ser_vec(&q, pv).unwrap_or_default() != pb {
+										out.raw(&format!("#ORACLE-FAIL C05 ProofOfWork does not survive write -> read -> write at protocol version {}: w={} ps={} {:?} -> {:?}", pv.0, w, ps, nonces, q.proof.nonces));
+									}
+								}
+								_ => out.raw(&format!("#ORACLE-FAIL C05 well-formed ProofOfWork refused / panics on read at protocol version {}: w={} {:?}", pv.0, w, nonces)),
+							}
+						}
+					}
+					roundtrips += 1;
 				}
 				// difficulty is a function of the packed nonces only
 				if packed.len() >= 8 {
@@ -1566,7 +1614,7 @@ fn pack(out: &mut Out, rng: &mut Rng, thorough: bool) {
 		"#STAT pack_nonces on in-memory proofs with an over-wide nonce or a nonce count != proofsize: panicked={} returned={}",
 		panics, nopanic
 	));
-	out.raw(&format!("#STAT pack round-trips ok={} padding-bit corruptions refused={}", ok, refused));
+	out.raw(&format!("#STAT pack round-trips ok={} padding-bit corruptions refused={} write-read-write round trips over protocol versions 1,2,3,1000 (Proof and ProofOfWork)={}", ok, refused, roundtrips));
 }
 
 // test vectors of /repo/core/src/pow/*.rs (#[cfg(test)] there, copied): real 42-cycles at edge_bits 19 / 29 / 31
